@@ -320,3 +320,4 @@ def monitor_twins(tier="quick", seed=0):
 from pyvc.native import native_monitor  # noqa: E402
 
 EXTRA_CHECKS = [static_effects, native_monitor("C11", "contracts.c11", "monitor_twins", "twin-runs", "12 model-free schedulers x 40 events (120 in the thorough tier); 9 scheduler classes constructed under two states of the global generators, first 4 suggestions")]
+EXTRA_CHECKS = list(EXTRA_CHECKS) + [native_monitor("C11", "contracts.c16_native", "monitor_seeded_searchers", "seeded-searchers", "14 searcher / scheduler components (random, grid, regularised evolution, GP single- and multi-fidelity, constrained, cost-aware, multi-surrogate multi-objective, PBT, DEHB) x 2 (4) base seeds: equal random_seed and equal random_seed_generator under different states of numpy's and Python's global generators with a decoy instance interleaved, different seeds differ, second process with another PYTHONHASHSEED")]
